@@ -37,7 +37,8 @@ def _wrap(name, orig, two=False):
                 os.write(_fd, f"pre {n} {name} {src} {dst}\n".encode())
                 os.fsync(_fd)
                 if kill_at and n == kill_at:
-                    os.kill(os.getpid(), signal.SIGKILL)
+                    # SIGKILL (hard crash) or SIGINT (Ctrl-C: KeyboardInterrupt raised in the main thread wherever it is, the process unwinds and exits)
+                    os.kill(os.getpid(), signal.SIGINT if os.environ.get("MDPAXV_KILL_SIGNAL") == "INT" else signal.SIGKILL)
         if rel and _slow and name in ("rename", "replace") and ".orbax-checkpoint-tmp" in os.path.basename(src):
             time.sleep(_slow)        # slow storage: the commit of a checkpoint takes a while, so later save requests arrive while it is in flight
         r = orig(*a, **kw)
